@@ -56,6 +56,7 @@ func C11(p *Prog, r *Run) {
 	cOutput := p.Const(PkgN, "OutputNeuron").Val().ExactString()
 	cBias := p.Const(PkgN, "BiasNeuron").Val().ExactString()
 
+	sums := NewSummaries(p)
 	r.Rule("C11.1", "Genesis provenance: nodes, links (enabled genes only) and control nodes are built from the genome as stated, on every path of the three loops", func() {
 		nets := append(CallsTo(gen, newNet), CallsTo(gen, newMod)...)
 		if len(nets) != 2 {
@@ -203,9 +204,10 @@ func C11(p *Prog, r *Run) {
 					if f == nil || (f.Name() != "Incoming" && f.Name() != "Outgoing") {
 						continue
 					}
-					holder := tm.Of(st.Addr.(*ssa.FieldAddr).X).String()
+					// the node may be named through the link just built (newLink.OutNode): read through the constructor
+					holder := c11ViaCtor(sums, gen, tm.Of(st.Addr.(*ssa.FieldAddr).X)).String()
 					base, elems, isApp := appendCall(st.Val)
-					okOne := isApp && len(elems) == 1 && elems[0] == lc.Value() && tm.Of(base).String() == holder+"."+f.Name()
+					okOne := isApp && len(elems) == 1 && elems[0] == lc.Value() && c11ViaCtor(sums, gen, tm.Of(base)).String() == holder+"."+f.Name()
 					if f.Name() == "Incoming" {
 						nIn++
 						okOne = okOne && holder == g+".OutNode.PhenotypeAnalogue"
@@ -309,8 +311,8 @@ func C11(p *Prog, r *Run) {
 		if ok {
 			g := false
 			for _, gd := range Guards(cs[0].Block()) {
-				gt := tp.Of(gd.Cond)
-				if gt.Op == "bin" && gt.Args[0].String() == "recv.orgPhenotype" && gt.Args[1].Op == "nil" && ((gt.Name == "==") == gd.True) {
+				// nothing cached: `orgPhenotype == nil` taken or `!= nil` not taken, either operand order
+				if x, y, isEq := eqCond(tp, gd); isEq && ((x.String() == "recv.orgPhenotype" && y.Op == "nil") || (y.String() == "recv.orgPhenotype" && x.Op == "nil")) {
 					g = true
 				}
 			}
@@ -339,48 +341,21 @@ func C11(p *Prog, r *Run) {
 		lc := p.Func(PkgN, "Network.LinkCount")
 		cx := p.Func(PkgN, "Network.Complexity")
 		r.Fn(FuncName(nc), FuncName(lc), FuncName(cx))
-		tn := NewTermer(nc)
-		okN := true
-		for _, b := range nc.Blocks {
-			if ret, ok := b.Instrs[len(b.Instrs)-1].(*ssa.Return); ok {
-				s := tn.Of(ret.Results[0]).String()
-				if s != "len(recv.allNodes)" && s != "(len(recv.allNodes)+len(recv.controlNodes))" && s != "(len(recv.controlNodes)+len(recv.allNodes))" {
-					okN = false
-				}
-				if s == "len(recv.allNodes)" {
-					g := false
-					for _, gd := range Guards(b) {
-						gt := tn.Of(gd.Cond)
-						if gt.String() == "(len(recv.controlNodes)==0)" && gd.True {
-							g = true
-						}
-					}
-					okN = okN && g
-				}
-			}
-		}
-		r.Check(okN, "NodeCount", p.Pos(nc.Pos()), "len(allNodes) + len(controlNodes)", "NodeCount is not len(allNodes)+len(controlNodes)")
-		tl := NewTermer(lc)
-		terms := map[string]bool{}
-		okL := true
-		for _, st := range FieldStores(lc, p.Field(PkgN, "Network", "numLinks")) {
-			v := tl.Of(st.Val)
-			switch {
-			case v.String() == "0":
-				terms["init"] = true
-			case v.Op == "bin" && v.Name == "+" && v.Args[0].String() == "recv.numLinks" && v.Args[1].Op == "len":
-				terms[v.Args[1].Args[0].String()] = true
-			default:
-				okL = false
-			}
-		}
-		wantL := []string{"init", "recv.allNodes[*].Incoming", "recv.controlNodes[*].Incoming", "recv.controlNodes[*].Outgoing"}
-		for _, w := range wantL {
-			if !terms[w] {
-				okL = false
-			}
-		}
-		r.Check(okL && len(terms) == len(wantL), "LinkCount", p.Pos(lc.Pos()), "Σ Incoming(base) + Σ Incoming,Outgoing(control), from 0", fmt.Sprintf("LinkCount sums %v; expected exactly %v (each link of a base node is counted once, on its target)", keysOf(terms), wantL))
+		// The returned values are computed as symbolic sums (robust_c11.go): whatever way the sum is written -
+		// two returns under an emptiness test or one accumulator, `x += a; x += b` or `x += a + b`, a guard
+		// around the loop over a possibly empty list or none, the cached field or a local as accumulator - the
+		// result must be exactly the wanted addends, each once; one may be missing only where its list is empty.
+		whyN := c11ReturnIs(nc, NewTermer(nc), nil, []c11Want{
+			{"len(recv.allNodes)", "recv.allNodes"},
+			{"len(recv.controlNodes)", "recv.controlNodes"},
+		})
+		r.Check(whyN == "", "NodeCount", p.Pos(nc.Pos()), "len(allNodes) + len(controlNodes)", "NodeCount is not len(allNodes)+len(controlNodes): "+whyN)
+		whyL := c11ReturnIs(lc, NewTermer(lc), p.Field(PkgN, "Network", "numLinks"), []c11Want{
+			{"Σ len(recv.allNodes[*].Incoming)", "recv.allNodes"},
+			{"Σ len(recv.controlNodes[*].Incoming)", "recv.controlNodes"},
+			{"Σ len(recv.controlNodes[*].Outgoing)", "recv.controlNodes"},
+		})
+		r.Check(whyL == "", "LinkCount", p.Pos(lc.Pos()), "Σ Incoming(base) + Σ Incoming,Outgoing(control), from 0", "LinkCount is not Σ len(Incoming) over all base nodes + Σ (len(Incoming)+len(Outgoing)) over all control nodes, counted from 0 (each link of a base node is counted once, on its target): "+whyL)
 		tc := NewTermer(cx)
 		okC := false
 		for _, b := range cx.Blocks {
@@ -394,15 +369,40 @@ func C11(p *Prog, r *Run) {
 
 	r.Rule("C11.4", "graph view delegation: Edge, WeightedEdge, Weight, HasEdgeFromTo use the directed lookup, HasEdgeBetween the undirected one; Node/Nodes cover allNodesMIMO; From/To return graph.Empty for an absent id", func() {
 		eb := p.Func(PkgN, "Network.edgeBetween")
-		for name, directed := range map[string]string{"Edge": "true", "WeightedEdge": "true", "Weight": "true", "HasEdgeFromTo": "true", "HasEdgeBetween": "false"} {
+		// A query delegates either to edgeBetween(u, v, <direction>) itself or to another query of the same
+		// direction that does (HasEdgeFromTo as `n.Edge(u, v) != nil`, Weight through WeightedEdge), with its two
+		// ids in order: the lookup that decides the answer is then still edgeBetween(u, v, <direction>).
+		queries := map[string]string{"Edge": "true", "WeightedEdge": "true", "Weight": "true", "HasEdgeFromTo": "true", "HasEdgeBetween": "false"}
+		idsInOrder := func(tf *Termer, c ssa.CallInstruction) bool {
+			a := callArgTerms(tf, c.Common())
+			return len(a) >= 3 && a[0].Op == "recv" && isParamIdx(a[1], 1) && isParamIdx(a[2], 2)
+		}
+		direct := map[string]bool{}
+		for name, directed := range queries {
+			fn := p.Func(PkgN, "Network."+name)
+			tf := NewTermer(fn)
+			if cs := CallsTo(fn, eb); len(cs) == 1 {
+				a := callArgTerms(tf, cs[0].Common())
+				direct[name] = idsInOrder(tf, cs[0]) && a[3].String() == directed
+			}
+		}
+		for name, directed := range queries {
 			fn := p.Func(PkgN, "Network."+name)
 			r.Fn(FuncName(fn))
 			tf := NewTermer(fn)
-			cs := CallsTo(fn, eb)
-			ok := len(cs) == 1
-			if ok {
-				a := callArgTerms(tf, cs[0].Common())
-				ok = a[0].Op == "recv" && isParamIdx(a[1], 1) && isParamIdx(a[2], 2) && a[3].String() == directed
+			ok := direct[name]
+			if !ok && len(CallsTo(fn, eb)) == 0 {
+				n := 0
+				for peer, d := range queries {
+					if peer == name {
+						continue
+					}
+					for _, c := range CallsTo(fn, p.Func(PkgN, "Network."+peer)) {
+						n++
+						ok = d == directed && direct[peer] && idsInOrder(tf, c)
+					}
+				}
+				ok = ok && n == 1
 			}
 			r.Check(ok, "graph."+name, p.Pos(fn.Pos()), "edgeBetween(u, v, "+directed+")", name+" does not delegate to edgeBetween(u, v, "+directed+") with its two ids in order")
 		}
@@ -444,8 +444,8 @@ func C11(p *Prog, r *Run) {
 					}
 					if isEmpty {
 						for _, gd := range Guards(b) {
-							gt := tf.Of(gd.Cond)
-							if gt.Op == "bin" && gt.Name == "==" && gd.True && isCallTo(gt.Args[0], nw) && gt.Args[1].Op == "nil" {
+							// the lookup found nothing: `node == nil` taken, or `node != nil` not taken, either operand order
+							if x, y, isEq := eqCond(tf, gd); isEq && ((isCallTo(x, nw) && y.Op == "nil") || (isCallTo(y, nw) && x.Op == "nil")) {
 								okE = true
 							}
 						}
